@@ -493,3 +493,41 @@ def register(reg):
 
         def checks(self, c):
             return [("no_descriptor_limited_select_where_poll_exists", ("C06", "C15", "C09"), len(c.events("rt.select.select")) == 0)]
+
+    # ================================================================== `async with pool:` / `with connection:`
+    def exit_closes(cls, close_key_suffix=".aclose"):
+        @reg.contract
+        class Exit(Contract):
+            """leaving the `with` block closes the pool / connection (C06: "at the latest when the pool is closed") and never
+            swallows the exception that ended the block"""
+            key = cls + ".__aexit__"
+            props = ("C06", "C15", "C05")
+            params = {"exc_type": "val", "exc_value": "val", "traceback": "val"}
+            raises = ["Cancelled"]
+            raises_props = ()
+
+            def checks(self, c):
+                calls = [e for e in c.trace if e.name == "call:" + cls + close_key_suffix]
+                return [
+                    ("closes_itself_exactly_once", ("C06", "C05"), z3.And(z3.BoolVal(len(calls) == 1), calls[0].data["self"].t == c.self.t) if calls else False),
+                    ("never_swallows_the_exception_that_ended_the_block", ("C15",), isinstance(c.result, VNone)),
+                ]
+
+        Exit.__name__ = "Exit_" + cls.rsplit(".", 1)[-1]
+
+        @reg.contract
+        class Enter(Contract):
+            key = cls + ".__aenter__"
+            props = ("C06",)
+            suspends = False
+            raises = []
+            raises_props = ()
+
+            def checks(self, c):
+                return [("returns_itself", ("C06",), isinstance(c.result, VRef) and c.result.t.eq(c.self.t))]
+
+        Enter.__name__ = "Enter_" + cls.rsplit(".", 1)[-1]
+
+    for _cls in ("httpcore._async.connection_pool.AsyncConnectionPool", "httpcore._async.connection.AsyncHTTPConnection",
+                 "httpcore._async.http11.AsyncHTTP11Connection", "httpcore._async.http2.AsyncHTTP2Connection"):
+        exit_closes(_cls)
